@@ -12,8 +12,12 @@ RULE = ('TLC checks chunking independence of the transcribed parser + connection
         'written to the real server under enumerated segmentations (whole, every single cut position, one byte at a time, '
         'random cuts; each chunk is a separate read because the driver waits for event-loop iterations, hook H2); the trace '
         'pairs the i-th reply frame read by an independent RESP reader with the i-th request and with the reply the server '
-        'computed for it (hook H3); TLC validates every pair against the spec. Distinct = distinct (pipeline, segmentation).')
+        'computed for it (hook H3); TLC validates every pair against the spec. Pipelines whose replies add up to several MiB '
+        '(1 MiB strings, 60 000-element lists, mixed with errors and nils) are sent before anything is read, so that the '
+        'server must resume partial socket writes; their payloads are compared by the harness (chk event; too large for TLC). '
+        'Distinct = distinct (pipeline, segmentation).')
 ASSUMPTIONS = ['the i-th reply on a connection answers the i-th request (that pairing is the property)',
+               'large-reply pipelines: replies are compared byte for byte by the harness, not by TLC; the client starts reading within 50 ms',
                'a protocol violation must be answered by an error frame; closing the connection afterwards is allowed']
 
 MULTI_FRAME = (b'SUBSCRIBE', b'PSUBSCRIBE', b'UNSUBSCRIBE', b'PUNSUBSCRIBE')
@@ -198,7 +202,61 @@ def cut_sets(rnd, n, tier_quick):
         yield sorted(set(rnd.randrange(1, n) for _ in range(k)))
 
 
+def large_replies(ctx, srv, tr):
+    """Several MiB of replies outstanding at once (the server has to resume partial socket writes): N pipelined requests
+    with large replies are sent before anything is read; the harness' own RESP reader then demands exactly the N
+    replies, byte for byte, followed by the reply of a trailing ECHO.  The payloads are too large to be carried through
+    TLC, so the comparison is made by the harness and recorded as a chk event (which the trace spec requires to be ok)."""
+    import time
+    cases = 0
+    big = bytes((i * 7 + i // 251) % 256 for i in range(1 << 20))
+    setup = Client(srv.port, timeout=20.0)
+    ok = setup.call([b'SET', b'big:1m', big])[0] == 'st'
+    ok = ok and setup.call([b'SET', b'big:300k', big[:300000]])[0] == 'st'
+    for i in range(0, 60000, 2000):
+        ok = ok and setup.call([b'RPUSH', b'big:list'] + [b'element-%06d' % j for j in range(i, i + 2000)])[0] == 'int'
+    setup.close()
+    tr.emit({'k': 'note', 'text': 'large replies: setup %s' % ('ok' if ok else 'FAILED')})
+    biglist = [('bulk', b'element-%06d' % j) for j in range(60000)]
+    plans = [([[b'GET', b'big:1m']] * 8, [('bulk', big)] * 8, 0.05),
+             ([[b'GET', b'big:1m']] * 12, [('bulk', big)] * 12, 0.0),
+             ([[b'GET', b'big:300k'], [b'GET', b'big:1m']] * 5, [('bulk', big[:300000]), ('bulk', big)] * 5, 0.02),
+             ([[b'LRANGE', b'big:list', b'0', b'-1']] * 6, [('arr', biglist)] * 6, 0.05),
+             ([[b'GET', b'big:1m'], [b'NOSUCHCMD'], [b'LRANGE', b'big:list', b'0', b'-1'], [b'GET', b'nokey']] * 3,
+              [('bulk', big), 'err', ('arr', biglist), ('nil',)] * 3, 0.03)]
+    if not ctx.quick:
+        plans = plans * 3
+    for reqs, want, pause in plans:
+        cl = Client(srv.port, timeout=30.0)
+        cl.send_raw(b''.join(resp.enc_cmd(a) for a in reqs) + resp.enc_cmd([b'ECHO', b'end-of-pipeline']))
+        time.sleep(pause)
+        detail = ''
+        for i, w in enumerate(want + [('bulk', b'end-of-pipeline')]):
+            r = cl.recv(20.0)
+            good = (r[0] == 'err') if w == 'err' else (r == w)
+            if not good:
+                detail = 'reply %d of %d: expected %s, got %s' % (i + 1, len(want) + 1, w if w == 'err' else (w[0], len(w[1]) if len(w) > 1 else 0),
+                                                                   (r[0], (len(r[1]) if len(r) > 1 and hasattr(r[1], '__len__') else r[1:]), str(r[1][:60]) if r[0] == 'garbage' else ''))
+                break
+        if not detail:
+            extra = cl.recv(0.05)
+            if extra[0] != 'none':
+                detail = 'unsolicited frame after the last reply: %s' % (extra[0],)
+        cl.close()
+        tr.emit({'k': 'chk', 'name': 'large-replies', 'ok': 0 if detail else 1,
+                 'detail': detail or '%d replies, %d bytes requested at once' % (len(want), sum(len(w[1]) if w != 'err' and len(w) > 1 and isinstance(w[1], bytes) else 0 for w in want))})
+        cases += 1
+        if not srv.alive():
+            tr.emit({'k': 'crash', 'status': srv.exit_status()})
+            break
+    cl = Client(srv.port, timeout=10.0)
+    cl.call([b'DEL', b'big:1m', b'big:300k', b'big:list'])
+    cl.close()
+    return cases
+
+
 def run(ctx):
+    ctx.model_check('MC_Parser', 'MC_Parser_fixed_N5' if ctx.quick else 'MC_Parser_fixed_N6', workers=12, timeout=1500, subdir='impl')
     srv = ctx.new_server()
     rnd = ctx.rnd
     g = PipeGen(rnd)
@@ -253,6 +311,10 @@ def run(ctx):
             cid += 1
             run_pipeline(ctx, srv, tr, cid, prefix, [], raw_tail=(raw, kind))
             cases += 1
+    if srv.alive():
+        nl = large_replies(ctx, srv, tr)
+        cases += nl
+        ctx.extra_cov['large_reply_pipelines'] = nl
     ctx.validate(tr, label='pipe-last')
     ctx.extra_cov['distinct_cases'] = cases
     ctx.extra_cov['pipelines'] = n_pipes
